@@ -216,4 +216,81 @@ theorem STANAG_detects_bitflip (s t : STANAG) (h : STANAG_WF s) (hw : PES_WF (ST
   exact (STANAG_detects_flip s t h hw hs hafc hfull hhdr pre suf a _ hbuf
     (fun e => Acra.Lemmas.CRC.flip_ne a (k % 8) (Nat.mod_lt _ (by decide)) e.symm) (by omega)).2.2.2
 
+/-! ### review additions: joint witnesses; the excluded bits on an example -/
+
+/-- the example packet: section at offset 5, `section_length` 18 (section = packet bytes 5..25, CRC at 22..25) -/
+example : PMT_secOff pmtFlipExample = 5 ∧ PMT_slen pmtFlipExample = 18 ∧ PMT_WF pmtFlipExample := by decide +kernel
+
+/-- joint witness for ALL hypotheses of `PMT_detects_flip_partial` and `PMT_flip_false_partial`: the packet cut at
+    byte 9 (low byte of program_number, one of the 12 fixed bytes), 1 → 0xFF -/
+example :
+    let buf := Pkt_bytes (PMT_pkt pmtFlipExample)
+    let pre := buf.take 9; let suf := buf.drop 10
+    PMT_WF pmtFlipExample ∧ pmtFlipExample.pkt.sync = 0x47 ∧
+    (pmtFlipExample.pkt.adaption_ctrl = 1 ∨ pmtFlipExample.pkt.adaption_ctrl = 3) ∧
+    buf = pre ++ (1 : UInt8) :: suf ∧ (1 : UInt8) ≠ 0xFF ∧
+    PMT_secOff pmtFlipExample ≤ pre.length ∧ pre.length < PMT_secOff pmtFlipExample + PMT_slen pmtFlipExample + 3 ∧
+    (pre.length < PMT_secOff pmtFlipExample + 12 ∨ PMT_secOff pmtFlipExample + PMT_slen pmtFlipExample - 1 ≤ pre.length) ∧
+    pre.length ≠ PMT_secOff pmtFlipExample + 2 ∧ pre.length ≠ PMT_secOff pmtFlipExample + 11 ∧
+    (pre.length = PMT_secOff pmtFlipExample + 1 → (1 : UInt8).toNat % 16 = (0xFF : UInt8).toNat % 16) ∧
+    (pre.length = PMT_secOff pmtFlipExample + 10 → (1 : UInt8).toNat % 16 = (0xFF : UInt8).toNat % 16) := by
+  decide +kernel
+
+/-- joint witness for `PMT_detects_bitflip_partial`: the first bit of the section (k = 40), a bit of the descriptor
+    (k = 17·8+3), the HIGH nibble of section byte 1 (k = 6·8+4), the last bit of the CRC (k = 25·8+7) -/
+example : ∀ k ∈ [40, 139, 52, 207],
+    PMT_secOff pmtFlipExample ≤ k / 8 ∧ k / 8 < PMT_secOff pmtFlipExample + PMT_slen pmtFlipExample + 3 ∧
+    k / 8 ≠ PMT_secOff pmtFlipExample + 2 ∧ k / 8 ≠ PMT_secOff pmtFlipExample + 11 ∧
+    (k / 8 = PMT_secOff pmtFlipExample + 1 → 4 ≤ k % 8) ∧ (k / 8 = PMT_secOff pmtFlipExample + 10 → 4 ≤ k % 8) := by
+  decide +kernel
+
+/-- joint witness for ALL hypotheses of `PMT_flip_false_wellformed`: descriptor tag 5 → 4 at packet byte 17 -/
+example :
+    let s' : PMT := { pmtFlipExample with descriptor_tags := [{ tag := some 4, data := [1, 2, 3] }] }
+    let buf := Pkt_bytes (PMT_pkt pmtFlipExample)
+    let pre := buf.take 17; let suf := buf.drop 18
+    PMT_WF pmtFlipExample ∧ PMT_WF s' ∧ s'.pkt = pmtFlipExample.pkt ∧ pmtFlipExample.pkt.sync = 0x47 ∧
+    (pmtFlipExample.pkt.adaption_ctrl = 1 ∨ pmtFlipExample.pkt.adaption_ctrl = 3) ∧
+    buf = pre ++ (5 : UInt8) :: suf ∧ (5 : UInt8) ≠ 4 ∧
+    pre ++ (4 : UInt8) :: suf = (Pkt_hdr (PMT_pkt pmtFlipExample) ++ Pkt_af (PMT_pkt pmtFlipExample) ++ [0]) ++
+      (PMT_hdr s' ++ (PMT_loops s' ++ (PMT_crc4 pmtFlipExample ++ Pkt_stuffing (PMT_pkt pmtFlipExample)))) := by
+  decide +kernel
+
+/-- **the bits the `_partial` theorems exclude, on the example**: flipping any of the 8 bits of the pointer field
+    (packet byte 4), of the 12 `section_length` bits (low nibble of byte 6, byte 7) or of the 12 `program_info_length`
+    bits (low nibble of byte 15, byte 16) is ALSO reported — `unpack` does not return True (it raises `struct.error` /
+    `IndexError`); no general CRC argument covers these positions, this is a check of one packet -/
+example : ∀ k ∈ [32, 33, 34, 35, 36, 37, 38, 39, 48, 49, 50, 51, 56, 57, 58, 59, 60, 61, 62, 63,
+                  120, 121, 122, 123, 128, 129, 130, 131, 132, 133, 134, 135],
+    (match (PMT.unpack PMT.fresh (Acra.Lemmas.CRC.flipBit (Pkt_bytes (PMT_pkt pmtFlipExample)) k)).2 with
+     | .ok true => false | _ => true) = true := by
+  decide +kernel
+
+/-- joint witness for ALL hypotheses of `STANAG_detects_flip` (header case): the packet cut at byte 160 (inside the
+    universal key); `STANAG_detects_bitflip`: the first and the last bit of the region -/
+example :
+    let buf := Pkt_bytes (PES_pkt (STANAG_pes stanagFlipExample))
+    let pre := buf.take 160; let suf := buf.drop 161
+    STANAG_WF stanagFlipExample ∧ PES_WF (STANAG_pes stanagFlipExample) ∧ stanagFlipExample.pes.pkt.sync = 0x47 ∧
+    (stanagFlipExample.pes.pkt.adaption_ctrl = 1 ∨ stanagFlipExample.pes.pkt.adaption_ctrl = 3) ∧
+    Pkt_used (PES_pkt (STANAG_pes stanagFlipExample)) = 188 ∧
+    (∃ w1 w2 hd, PES.ext stanagFlipExample.pes = some (w1, w2, hd) ∧ w1 / 16 = 8) ∧
+    buf = pre ++ (0x34 : UInt8) :: suf ∧ (0x34 : UInt8) ≠ 0x35 ∧ 157 ≤ pre.length ∧
+    157 * 8 ≤ 157 * 8 ∧ 157 * 8 < 188 * 8 ∧ 157 * 8 ≤ 188 * 8 - 1 ∧ 188 * 8 - 1 < 188 * 8 := by
+  refine ⟨by decide, by decide +kernel, by decide, by decide, by decide +kernel,
+    ⟨0x81, 0x80, [0x21, 0x04, 0x03, 0xFE, 0xD1], by decide, by decide⟩, by decide +kernel, by decide, by decide +kernel,
+    by decide, by decide, by decide, by decide⟩
+
+/-- … and for the header-less alternative of `hhdr`: counter 15, largest time, filled through the adaptation field -/
+example :
+    let s : STANAG :=
+      { STANAG.fresh with
+        pes := { PES.fresh with
+                 pkt := { Pkt.fresh with adaption_ctrl := 3, adaption_field := some { AF.fresh with length := 141 } },
+                 streamid := 0xFC },
+        stanag_counter := 15, time_us := 0xFFFFFFFFFFFFFFFF }
+    STANAG_WF s ∧ PES_WF (STANAG_pes s) ∧ s.pes.pkt.sync = 0x47 ∧ Pkt_used (PES_pkt (STANAG_pes s)) = 188 ∧
+    PES.ext s.pes = none ∧ ¬ looksLikeHeader (STANAG_pes s) := by
+  decide +kernel
+
 end Acra.Props.C07
